@@ -23,8 +23,10 @@ def workdir(name):
     return d
 
 
-def _java_cmd(xmx="3g", deque=False):
-    cmd = ["java", "-XX:+UseParallelGC", "-Xmx" + xmx, "-Xss16m"]
+def _java_cmd(xmx="3g", deque=False, serial=False):
+    cmd = ["java", "-XX:+UseSerialGC" if serial else "-XX:+UseParallelGC", "-Xmx" + xmx, "-Xss16m"]
+    if serial:
+        cmd += ["-XX:TieredStopAtLevel=4", "-XX:CICompilerCount=2"]
     if deque:
         cmd.append("-Dtlc2.tool.queue.IStateQueue=StateDeque")
     cp = JAR
@@ -37,16 +39,16 @@ def _java_cmd(xmx="3g", deque=False):
 
 
 def run(module, cfg=None, wd=None, workers=16, timeout=600, args=(), env=None, xmx="3g", deque=False,
-        use_wrapper=True):
+        use_wrapper=True, serial=False):
     """run TLC on spec/<module>.tla with spec/<cfg>.cfg; returns dict with stdout and parsed statistics"""
     cfg = cfg or module
     wd = wd or workdir("tlc_" + cfg)
     meta = os.path.join(wd, "meta_" + cfg)
     shutil.rmtree(meta, ignore_errors=True)
-    if use_wrapper and shutil.which("tlc") and not deque:
+    if use_wrapper and shutil.which("tlc") and not deque and not serial:
         cmd = ["tlc"]
     else:
-        cmd = _java_cmd(xmx, deque)
+        cmd = _java_cmd(xmx, deque, serial)
     cmd += ["-workers", str(workers), "-metadir", meta, "-noGenerateSpecTE", "-config",
             os.path.join(SPEC, cfg + ".cfg")] + list(args) + [os.path.join(SPEC, module + ".tla")]
     e = dict(os.environ)
@@ -358,6 +360,18 @@ def tour(nodes, edges, inits, max_paths=None):
 _VERDICT = re.compile(r'^"VERDICT <<(.*)>>"\s*$', re.M)
 
 
+def _unescape_once(s):
+    out, i = [], 0
+    while i < len(s):
+        if s[i] == "\\" and i + 1 < len(s):
+            out.append(s[i + 1])
+            i += 2
+        else:
+            out.append(s[i])
+            i += 1
+    return "".join(out)
+
+
 def validate(module, cfg, traces, wd=None, timeout=900, extra_env=None, shard=4000, workers=1, quiet=False):
     """validate a list of traces (each a list of event dicts, or any JSON value the trace spec understands)
     with the total monitor spec/<module>.tla.  Returns (verdicts list aligned with traces, stats).
@@ -365,6 +379,7 @@ def validate(module, cfg, traces, wd=None, timeout=900, extra_env=None, shard=40
     wd = wd or workdir("trace_" + cfg)
     verdicts = [None] * len(traces)
     stats = dict(generated=0, distinct=0, runs=0, wall=0.0)
+    shard = max(300, min(shard, -(-len(traces) // 16)))   # spread over the 16 cores
     jobs = []
     for k in range(0, len(traces), shard):
         part = traces[k:k + shard]
@@ -380,7 +395,8 @@ def validate(module, cfg, traces, wd=None, timeout=900, extra_env=None, shard=40
         env = {"TRACE_FILE": path}
         if extra_env:
             env.update(extra_env)
-        r = run(module, cfg, wd=os.path.join(wd, "s%d" % k), workers=workers, timeout=timeout, env=env)
+        r = run(module, cfg, wd=os.path.join(wd, "s%d" % k), workers=workers, timeout=timeout, env=env,
+                serial=True, xmx="2g")
         return job, r
 
     with ThreadPoolExecutor(max_workers=min(16, max(1, len(jobs)))) as ex:
@@ -394,7 +410,7 @@ def validate(module, cfg, traces, wd=None, timeout=900, extra_env=None, shard=40
         stats["runs"] += 1
         stats["wall"] += r["wall"]
         for m in _VERDICT.finditer(out):
-            v = parse_value("<<" + m.group(1).replace('\\"', '"') + ">>")
+            v = parse_value("<<" + _unescape_once(m.group(1)) + ">>")
             tid = int(v[0]) - 1 + k
             rec = dict(tid=tid, at=v[1], clause=v[2], detail=v[3] if len(v) > 3 else None, extra=v[4:])
             if verdicts[tid] is not None and verdicts[tid]["clause"] != rec["clause"]:
